@@ -526,6 +526,11 @@ func (t *tokenizer) readQuotedSymbol() (string, error) {
 			return "", err
 		}
 
+		if isProhibitedControlChar(c) {
+			// As in strings, raw control characters have to be escaped.
+			return "", t.invalidChar(c)
+		}
+
 		switch c {
 		case -1, '\n':
 			return "", t.invalidChar(c)
